@@ -80,6 +80,12 @@ type mon struct {
 	caseNo  atomic.Int64
 	stop    chan struct{}
 
+	// heavy: confirmed alloc violations + calls the watchdog had to look at. Once
+	// a few have been seen (only possible on a broken tree) the remaining
+	// deep-nesting cases are skipped: each would cost minutes without adding
+	// information.
+	heavy atomic.Int64
+
 	maxRatioMu sync.Mutex
 	maxRatio   float64
 	maxRatioAt string
@@ -144,6 +150,7 @@ func (m *mon) exec(s *slot, e *entry, in []byte, aux uint, gen string, measure b
 	s.mu.Unlock()
 	if flagged {
 		// the watchdog suspected this call; it did come back
+		m.heavy.Add(1)
 		m.c.Count("slow_calls_completed", 1)
 		fmt.Fprintf(os.Stderr, "C02: slow call completed after %v: %s aux=%d len=%d\n", dur, e.name, aux, len(in))
 	}
@@ -812,6 +819,10 @@ func run(c *core.Ctx) {
 	t0 = time.Now()
 	s := m.acquire()
 	for _, cs := range serial {
+		if cs.gen == 'D' && m.heavy.Load() >= 3 {
+			c.Count("deep_cases_skipped_after_3_slow_or_oversized_calls", 1)
+			continue
+		}
 		in, aux, gen, desc, nontrivial := m.makeCase(cs, anyPool)
 		o := m.exec(s, cs.e, in, aux, gen, true)
 		m.judge(s, cs.e, in, aux, gen, desc, o, nontrivial)
@@ -1087,6 +1098,7 @@ func (m *mon) judgeAlloc(e *entry, in []byte, aux uint, gen, desc string, delta 
 		m.c.Inconclusive(fmt.Sprintf("allocation of %s: %d bytes in the run but %d alone (bound %d)", e.keyName(aux), delta, res.Alloc, bound))
 		return
 	}
+	m.heavy.Add(1)
 	w := witness(e, in, aux, gen, desc)
 	w["alloc_bytes_in_run"] = delta
 	w["alloc_bytes_alone"] = res.Alloc
